@@ -14,7 +14,7 @@ CLAIMED = {
     ),
     "C02": (
         "bounded symbolic execution of the real pack kernels (ksym: instrumented source on z3 bit-vectors), solver-decided round-trip assertions",
-        "For every object type and every size / OFS offset below 2^63 the real header encoder and decoders are mutual inverses and produce git's canonical length; the offset decoder is total on every varint of <= 4 bytes; bisect_find_sha is exact on every sorted table of <= 5 first-byte-distinguished names. Decided by z3 over all values in those bounds, per path of the real code; nothing is claimed outside them (zlib payloads, index files, delta chains are outside this check so far).",
+        "For every object type and every size / OFS offset below 2^63 the real header encoder and decoders are mutual inverses and produce git's canonical length; the offset decoder is total on every varint of <= 4 bytes; bisect_find_sha is exact on every sorted table of <= 5 first-byte-distinguished names. Decided by z3 over all values in those bounds, per path of the real code; pack index v1/v2/v3 writers and readers round-trip every table of 1-2 entries with symbolic 63-bit offsets and CRCs (first name bytes forked over fan-out boundary values, the index checksum an uninterpreted hash term), covering the inline, top-bit and 64-bit-table cases around 2^31; delta chains of 2-3 deltas with every hop symbolically OFS or REF (REF deltas optionally stored before their base) resolve to the chain's content by random access, by iteration and in check() through the real Pack/PackData readers on real files. Nothing is claimed outside these bounds (zlib payloads run concretely; packs above a few objects are outside).",
         "Trusted: z3, the ksym proxies/models (translator-validated against native CPython on pinned vectors every run), CPython. Python ints are 128-bit bit-vectors with discharged width obligations.",
     ),
     "C03": (
@@ -44,12 +44,12 @@ CLAIMED = {
     ),
     "C19": (
         "bounded symbolic execution of the real pkt-line/side-band code (ksym) with symbolic stream contents, cut positions and recv sizes",
-        "All 2^32 length prefixes decided in one run; PktLineParser and Protocol.read_pkt_line agree with an independent reference parser on every byte string of up to 7 bytes (9 thorough) and under every pair of cut positions; ReceivableProtocol.read/recv deliver the stream in order for every symbolic recv-size schedule over 3 calls; BufferedPktLineWriter output equals the concatenated frames around the buffer boundary; capability/ref/cmd lines and side-band demultiplexing round-trip. Payloads near the 65520-byte limit need symbolic lengths (opaque ropes) and are not covered yet.",
+        "All 2^32 length prefixes decided in one run; PktLineParser and Protocol.read_pkt_line agree with an independent reference parser on every byte string of up to 7 bytes (9 thorough) and under every pair of cut positions; ReceivableProtocol.read/recv deliver the stream in order for every symbolic recv-size schedule over 3 calls; BufferedPktLineWriter output equals the concatenated frames around the buffer boundary; capability/ref/cmd lines and side-band demultiplexing round-trip. Frame-size limits: for payload lengths forked over the boundary values around 65516/65520 (pkt_line, write_pkt_line, write_sideband, BufferedPktLineWriter with its default buffer) a frame is either emitted with a 4-digit prefix and at most 65520 bytes or refused, and the reader accepts exactly the frames the writer may emit. One genuine defect was repaired (10a55e9). Arbitrary symbolic lengths between the boundary values are not covered (lengths are concrete per path).",
         "Trusted: z3, ksym, CPython. Protocol tokens are assumed printable non-blank bytes.",
     ),
     "C20": (
         "bounded symbolic execution of the real config reader/writer (ksym) against each other and against a reference model of git's parse_value/write_pair",
-        "For every NUL-free value of up to 4 bytes (5 thorough): dulwich reads back what it writes; git's reader (reference model) reads the same value from what dulwich writes; dulwich reads what git's writer (reference model) produces; subsection names of up to 3 bytes survive escaping and the section-header parser; a ConfigFile with a single- and a multi-valued key survives write_to_file/from_file with order kept; name rules equal git's. Reference models validated against the installed git binary. Three genuine defects found by this check were repaired (fix: commits 8f76b79, f15a11c, 8bfa6ad).",
+        "For every NUL-free value of up to 4 bytes (5 thorough): dulwich reads back what it writes; git's reader (reference model) reads the same value from what dulwich writes; dulwich reads what git's writer (reference model) produces; subsection names of up to 3 bytes survive escaping and the section-header parser; a ConfigFile with a single- and a multi-valued key survives write_to_file/from_file with order kept; every sequence of 3 (4 thorough) set/add/delete/section-removal steps leaves a file that reads back to the in-memory state; name rules equal git's. Reference models validated against the installed git binary. Three genuine defects found by this check were repaired (fix: commits 8f76b79, f15a11c, 8bfa6ad).",
         "Trusted: z3, ksym, the git reference models (validated against git 2.39.5).",
     ),
     "C12": (
@@ -59,7 +59,7 @@ CLAIMED = {
     ),
     "C13": (
         "bounded symbolic execution of the real graph/walk code (ksym): DAG shapes forked by the solver, commit timestamps symbolic integers, oracle = graph-theoretic reference",
-        "For every DAG on up to 4 commits (5 thorough) and every pair of query commits, with commit timestamps as symbolic integers in [-2^40,2^40] (the code only compares/negates them, so all orderings incl. ties, backwards and negative clocks are covered): _find_lcas/find_merge_base return exactly the maximal common ancestors, can_fast_forward(a,b) <=> a is an ancestor of b, independent/find_octopus_base (thorough) are exact; Walker yields exactly the reachable set once each in date and topo order (never a parent before its child), and reachable(include)-reachable(exclude) under monotone clocks. Three genuine defects found by this check were repaired (fix: commits 77392fb, 0225633, 3a70501).",
+        "For every DAG on up to 4 commits (5 thorough) and every pair of query commits, with commit timestamps as symbolic integers in [-2^40,2^40] (the code only compares/negates them, so all orderings incl. ties, backwards and negative clocks are covered): _find_lcas/find_merge_base return exactly the maximal common ancestors, can_fast_forward(a,b) <=> a is an ancestor of b, independent/find_octopus_base (thorough) are exact; Walker yields exactly the reachable set once each in date and topo order (never a parent before its child), and reachable(include)-reachable(exclude) under monotone clocks; with since/until bounds exactly the reachable commits inside the window are yielded. Three genuine defects found by this check were repaired (fix: commits 77392fb, 0225633, 3a70501).",
         "Trusted: z3, ksym, CPython. Commits are real Commit objects with fixed ids in a dict-backed store (no serialisation); heapq runs natively on the proxies' comparison protocol.",
     ),
     "C04": (
@@ -79,7 +79,7 @@ CLAIMED = {
     ),
     "C07": (
         "bounded symbolic exploration of the real _GitFile under a rely/guarantee environment (ksym): positions and kinds of interfering actions and of an injected fault are solver-forked variables over a real directory",
-        "One actor runs open-for-write/write/(close|abort|interrupted with-block) on the real _GitFile in a real directory while a protocol-abiding other locker may acquire/commit/abort before up to 2 of the actor's system calls and one system call may fail with EIO, all at symbolic positions: the actor never renames or removes a lock it does not own, owns the lock after a successful open, leaves complete old or complete new content visible to readers at every point, releases its lock on every ending, and a failed or aborted write leaves the old content. By assume/guarantee induction this gives mutual exclusion for any number of protocol-abiding writers within the bound. Two genuine defects found by this check were repaired (fix: 91eebc4, 8e3e18a). Callers of the protocol (index, refs, config writers) under fault injection are not covered by this check yet.",
+        "One actor runs open-for-write/write/(close|abort|interrupted with-block) on the real _GitFile in a real directory while a protocol-abiding other locker may acquire/commit/abort before up to 2 of the actor's system calls and one system call may fail with EIO, all at symbolic positions: the actor never renames or removes a lock it does not own, owns the lock after a successful open, leaves complete old or complete new content visible to readers at every point, releases its lock on every ending, and a failed or aborted write leaves the old content. By assume/guarantee induction this gives mutual exclusion for any number of protocol-abiding writers within the bound. Two genuine defects found by this check were repaired (fix: 91eebc4, 8e3e18a). Callers: two actors with warm caches each run one of 7 packed-refs rewriting/abandoning operations (every pair) with <= 2 preemptions at symbolic file-system-call positions: packed-refs is complete and well formed at every scheduling point, refs neither operation names keep their values, no lock is left. Index and config writers under fault injection are covered at the crash level by C09 only.",
         "Trusted: z3 (forking only), ksym, POSIX semantics of O_EXCL/rename/unlink as provided by the kernel on /dev/shm; other writers follow the protocol.",
     ),
     "C08": (
@@ -99,12 +99,12 @@ CLAIMED = {
     ),
     "C11": (
         "bounded symbolic execution of the real index (de)serialisation kernels (ksym) against each other and against reference models of git's varint.c and on-disk entry layout",
-        "For every value below 2^63 the v4 varint round-trips and is byte-identical to git's varint.c; path compression round-trips (memory and stream decoders) for every pair of paths of up to 3 bytes and for 127..300-byte previous paths; write_cache_entry->read_cache_entry returns every field for versions 2,3,4 with all stat fields, stage/assume-valid and skip-worktree/intent-to-add bits symbolic, names of 1..9 symbolic bytes (all padding classes) and of 0xFFE..0x1001 bytes, with git's layout (saturating 12-bit length, 1..8 NUL padding); index_entry_from_stat->write never fails for any 64-bit stat value and stores it modulo 2^32. Three genuine defects found by this check were repaired. Ordering of entries, extensions and the SHA trailer are not covered by this check yet.",
+        "For every value below 2^63 the v4 varint round-trips and is byte-identical to git's varint.c; path compression round-trips (memory and stream decoders) for every pair of paths of up to 3 bytes and for 127..300-byte previous paths; write_cache_entry->read_cache_entry returns every field for versions 2,3,4 with all stat fields, stage/assume-valid and skip-worktree/intent-to-add bits symbolic, names of 1..9 symbolic bytes (all padding classes) and of 0xFFE..0x1001 bytes, with git's layout (saturating 12-bit length, 1..8 NUL padding); index_entry_from_stat->write never fails for any 64-bit stat value and stores it modulo 2^32. the SHA trailer: every single-byte damage (4 XOR masks at a symbolic offset) or truncation of a written index is rejected by the reader or yields the same entries. Four genuine defects found by this check were repaired. Ordering of entries across a whole index and extensions are not covered by this check.",
         "Trusted: z3, ksym (struct/BytesIO/binascii models, translator-validated), reference models of git's formats (the v4 varint additionally exercised against the git binary by dulwich's own compat tests).",
     ),
     "C17": (
         "bounded symbolic execution of the real path validators and leading-directory check (ksym) against independent file-system-equivalence predicates and a symbolic lstat table",
-        "For every element of up to 5 (default) / 6 (NTFS; 7 thorough) bytes: an accepted element is not a spelling of .git, git~1, '.', '..' or empty under case folding, trailing dots/blanks, ':stream' suffixes and backslash segments, and the default validator refuses nothing else; validate_path accepts no path of up to 6 bytes with a dangerous component or a leading '/'; verify_leading_dirs, for every symbolic state (absent/dir/symlink/file) of up to 3 leading components and every admissible safe_prefix cache, returns normally only if no existing leading component is a symlink and keeps the cache invariant. The end-to-end checkout composition and the HFS+ validator are not covered by this check.",
+        "For every element of up to 5 (default) / 6 (NTFS; 7 thorough) bytes: an accepted element is not a spelling of .git, git~1, '.', '..' or empty under case folding, trailing dots/blanks, ':stream' suffixes and backslash segments, and the default validator refuses nothing else; validate_path accepts no path of up to 6 bytes with a dangerous component or a leading '/'; verify_leading_dirs, for every symbolic state (absent/dir/symlink/file) of up to 3 leading components and every admissible safe_prefix cache, returns normally only if no existing leading component is a symlink and keeps the cache invariant. Composition on a real file system: every sequence of 3 steps, each a tree from an adversarial pool of 10 (symlinks to ../outside, to an absolute path, to a sibling directory whose name extends the work tree's; same-named directories; .GIT, '.git .', git~1, '..' and absolute entry names) applied by reset --hard, reset --mixed or as a patch, creates/changes/deletes nothing outside the work tree or in a sibling directory and writes no tree content into .git. The HFS+ validator and real NTFS/HFS+ file systems are not covered.",
         "Trusted: z3, ksym, the written-down NTFS/case-insensitive equivalences (from git's is_ntfs_dotgit/verify_dotfile); os.lstat is replaced by a symbolic table.",
     ),
 }
